@@ -58,6 +58,10 @@ class Violation(object):
         return {"key": self.key, "case": jsonable(self.case), "detail": jsonable(self.detail)}
 
 
+class EnoughViolations(BaseException):
+    """Raised inside a shard once it has collected plenty of counterexamples (the verdict is certain)."""
+
+
 class Partial(object):
     """What a worker returns for one shard: counters, violations, samples."""
 
@@ -67,6 +71,7 @@ class Partial(object):
         self.samples = []
         self.outcomes = {}
         self.sets = {}
+        self.shard_violation_limit = 0
 
     def add(self, name, item):
         """Record membership of a hashable item in a named set (merged by union across workers)."""
@@ -88,6 +93,8 @@ class Partial(object):
         self.count("violations_raw")
         if len(self.violations) < 200:
             self.violations.append(Violation(key, case, detail))
+        if self.shard_violation_limit and self.counters["violations_raw"] >= self.shard_violation_limit:
+            raise EnoughViolations()
 
     def sample(self, s):
         if len(self.samples) < MAX_SAMPLES:
